@@ -125,6 +125,45 @@ def signature(P, b):
     return sig
 
 
+def token_len_rule(ctx, R):
+    """shared by C16 (trie <-> bytes), C12 (rollback byte accounting) and C19 (special tokens)"""
+    P = ctx.prog
+    # ------------------------------------------------------------------ R7 token_len mirrors decode_raw for special tokens
+    # rollback converts tokens to byte counts with token_len(), while the bytes themselves were produced by decode_raw():
+    # for special / empty tokens both use the \xFF "[" decimal-id "]" encoding, so token_len must be 3 + number of decimal
+    # digits of the id: len starts at 1, `while idx >= 10 { idx /= 10; len += 1 }`, then + 3.
+    tl = ctx.body(TT + "::token_len")
+    loop_ok, div_ok, inc1, plus3 = False, False, False, False
+    for bi, e, targets, otherwise in tl.switch_edges():
+        cur, pol = F.peel_polarity(e)
+        if cur[0] == "bin" and cur[3][0] == "const" and cur[2][0] in ("local", "place"):
+            if (cur[1], cur[3][1]) in (("Ge", 10), ("Gt", 9), ("Lt", 10), ("Le", 9)):
+                loop_ok = True
+            elif cur[1] in ("Ge", "Gt", "Lt", "Le") and isinstance(cur[3][1], int) and cur[3][1] in (9, 10, 11):
+                loop_ok = False
+                ctx.violation(R, "token_len:digit-loop-bound", "token_len counts decimal digits with `%s %s`: ids such as 10, 100..109 get the "
+                              "wrong length, and rollback drops the wrong number of bytes after a special token" % (cur[1], cur[3][1]), site=tl.where(bi))
+    for bi, si, st in tl.statements():
+        r = st.get("r", {})
+        if st["s"] == "assign" and r.get("rv") == "bin":
+            cb_ = F.op_const_int(r["b"]) if isinstance(r.get("b"), dict) else None
+            if r["op"].startswith("Div") and cb_ == 10:
+                div_ok = True
+            if r["op"].startswith("Add") and cb_ == 1:
+                inc1 = True
+            if r["op"].startswith("Add") and cb_ == 3:
+                plus3 = True
+    ctx.check(loop_ok and div_ok and inc1 and plus3, R, "token_len:special-token-length",
+              "special / empty tokens: 3 + decimal digits (loop `>= 10`, `/ 10`, `+ 1`, `+ 3`)",
+              "TokTrie::token_len no longer computes 3 + number of decimal digits for special tokens (loop bound ok: %s, /10: %s, +1: %s, +3: %s)"
+              % (loop_ok, div_ok, inc1, plus3), site=tl.where())
+    dr = ctx.body(TT + "::decode_raw")
+    tmpl = [str(o.get("k", "")) for bi, si, st in dr.statements() if st["s"] == "assign" and st["r"].get("rv") == "use" for o in [st["r"]["o"]] if "k" in o and "[" in str(o.get("k", ""))]
+    ctx.check(any("[" in k and "]" in k for k in tmpl) and bool(dr.call_blocks(lambda d: d.endswith("Vec::<T, A>::push"))), R, "decode_raw:special-token-encoding",
+              "decode_raw writes the marker byte followed by `[id]`", "decode_raw's encoding of special tokens changed (templates: %s)" % tmpl, site=dr.where())
+
+
+
 def run(ctx):
     P = ctx.prog
     # ------------------------------------------------------------------ R1 unchecked write in bounds by construction
@@ -343,6 +382,8 @@ def _rest(ctx, P):
     g = L.guard_edges(ins, lambda e: e[0] == "bin" and e[1] == "Eq" and L.is_field_read(BN, "token_id")(L.strip_wrappers(e[2])) and "NO_TOKEN" in repr(e[3]), True)
     ctx.check(bool(g), "C16-R6", "write-once:root-token", "the root token id is asserted to be unset before being assigned",
               "TrieBuilder::insert no longer asserts that the empty word is inserted once", site=ins.where())
+
+    token_len_rule(ctx, "C16-R7")
 
     # ------------------------------------------------------------------ R5 sibling builders agree
     fr, fl = ctx.body(TT + "::from"), ctx.body(TT + "::filter")
